@@ -35,8 +35,13 @@ class FaultFS:
         idx = len(self.ops)
         op['idx'] = idx
         self.ops.append(op)
-        if self.fault_at is not None and idx == self.fault_at and not self.fired:
+        fa = self.fault_at
+        if fa is not None and (idx in fa if isinstance(fa, (list, tuple, set, frozenset))
+                               else idx == fa and not self.fired):
+            # fault_at may be one index or a collection of indices (several I/O errors in
+            # one run: the error handling itself runs into an error)
             self.fired = True
+            self.nfired = getattr(self, 'nfired', 0) + 1
             op['faulted'] = True
             return True
         return False
